@@ -1,6 +1,7 @@
 package store
 
 import (
+	"bytes"
 	"context"
 	"encoding/binary"
 	"errors"
@@ -80,11 +81,23 @@ func (s *DefaultStore) SaveBlockData(ctx context.Context, header *types.SignedHe
 		return fmt.Errorf("failed to marshal Data to binary: %w", err)
 	}
 
+	// when the height already holds a block with another hash, the index entry of the replaced
+	// block must go away with it, or a lookup by the old hash would hand out the new block
+	staleHash, err := s.replacedBlockHash(ctx, height, hash)
+	if err != nil {
+		return err
+	}
+
 	batch, err := s.db.Batch(ctx)
 	if err != nil {
 		return fmt.Errorf("failed to create a new batch: %w", err)
 	}
 
+	if staleHash != nil {
+		if err := batch.Delete(ctx, ds.NewKey(getIndexKey(staleHash))); err != nil {
+			return fmt.Errorf("failed to delete index key of replaced block in batch: %w", err)
+		}
+	}
 	if err := batch.Put(ctx, ds.NewKey(getHeaderKey(height)), headerBlob); err != nil {
 		return fmt.Errorf("failed to put header blob in batch: %w", err)
 	}
@@ -102,6 +115,28 @@ func (s *DefaultStore) SaveBlockData(ctx context.Context, header *types.SignedHe
 	}
 
 	return nil
+}
+
+// replacedBlockHash returns the hash of the header currently stored at height if it differs from
+// newHash, and nil if there is no such header.
+func (s *DefaultStore) replacedBlockHash(ctx context.Context, height uint64, newHash types.Hash) (types.Hash, error) {
+	oldBlob, err := s.db.Get(ctx, ds.NewKey(getHeaderKey(height)))
+	if errors.Is(err, ds.ErrNotFound) {
+		return nil, nil
+	}
+	if err != nil {
+		return nil, fmt.Errorf("failed to load header to be replaced: %w", err)
+	}
+	old := new(types.SignedHeader)
+	if err := old.UnmarshalBinary(oldBlob); err != nil {
+		// an unreadable record has no usable hash; it is simply overwritten
+		return nil, nil
+	}
+	oldHash := old.Hash()
+	if bytes.Equal(oldHash, newHash) {
+		return nil, nil
+	}
+	return oldHash, nil
 }
 
 // GetBlockData returns block header and data at given height, or error if it's not found in Store.
